@@ -775,8 +775,12 @@ func (f *FilterJBIG2) Decode(_ Version, r io.Reader, budget *membudget.Budget) (
 		// Hit the budget-imposed cap (not the size cap); if the upstream
 		// stream still has bytes, the truncation is a budget exhaustion.
 		var probe [1]byte
-		if n, _ := r.Read(probe[:]); n > 0 {
+		n, err := r.Read(probe[:])
+		if n > 0 {
 			return asMalformedFilter(nil, membudget.ErrExceeded)
+		}
+		if err != nil && err != io.EOF {
+			return nil, err
 		}
 	}
 	if err := budget.Charge(len(pageData)); err != nil {
